@@ -67,6 +67,11 @@ def generate(tier, rng):
                             continue
                         a2 = dict(arr, values=pw)
                         cases.append(dict(stream="tolerance", uni=uni, arr=a2, op=dict(kind="shares", letters=sub)))
+                        # the same array in a very large / very small unit: shares do not depend on the unit
+                        if len(sub) <= 2:
+                            scale = Fraction(1, 2 ** 40) if (len(sub) + n) % 2 else Fraction(2 ** 40)
+                            cases.append(dict(stream="tolerance", uni=uni, arr=dict(arr, values=[str(v * scale) for v in pw]),
+                                              op=dict(kind="shares", letters=sub)))
                     # zero totals
                     z = [0 if i % 2 == 0 else v for i, v in enumerate(pw)]
                     if adims:
